@@ -34,3 +34,7 @@ mod k2_insert;
 mod k2_remove;
 mod k2_range;
 mod k2_misc;
+mod k2_lazy;
+mod k1_rawparts;
+#[cfg(feature = "alloc")]
+pub mod k1_heap;
